@@ -15,6 +15,11 @@ CHECKS = {
         technique='bounded-exhaustive enumeration of all str/bytes over an adversarial alphabet up to a length bound and of all chunk sequences, x six placements x every width 1..len+14; token-level oracle on the adjacent STRING tokens; direct exhaustive sweep of the splitter and escaper',
         text='All strings and byte strings over {quote, double quote, backslash, space, newline, letter, non-ASCII, NUL} up to the length bound, all sequences of chunks (up to 55 columns, so every branch of the splitter is reached), a code-point sweep and long scaled families are printed in six placements at every width from 1 up; the literal must be a run of adjacent STRING tokens with the right prefix, no empty piece, and concatenate to exactly the value. The splitter and escaper are additionally swept directly for every string x max_len 1..8 x both quotes.',
         note='trusted: tokenize / ast.literal_eval; the direct splitter sub-check is skipped (and reported) if the helpers are not importable; strings outside the alphabets are not covered'),
+    'C07': dict(
+        category='exploration', design_ref='DESIGN.md 4/C07',
+        technique='exhaustive cross product of per-type boundary grids (timedelta, date, datetime x 10 tzinfo kinds x fold, time, collections, mappingproxy, UUID, enums, SimpleNamespace, namedtuples, partial, exceptions, pure paths, timezones, pytz zones) x five placements x every width 1..L+3 x ribbons; output evaluated and compared per type; totality sweep of the built-in printers over all value trees <= 3 nodes',
+        text='Every instance of the grids is printed at top level, as list element, dict value, dict key and call argument at every width up to its one-line length (capped) with three ribbons; there must be no exception and no fallback warning, and the evaluated text must reconstruct an equal object of the same type (field-wise where equality is identity). A printer that raises is silently replaced by repr plus a warning, which pytest does not fail on - the timezone printer did exactly that on every input - so only a check that records warnings for every instance notices.',
+        note='trusted: CPython eval and per-type equality in eq(); names of fixed-offset zones are not required to survive because timezone equality ignores them; composite/zero Flag pseudo-members are outside the domain; grids are boundary values, not all values'),
     'C08': dict(
         category='exploration', design_ref='DESIGN.md 4/C08',
         technique='exhaustive enumeration of a subclass family (plain / __repr__+__str__ overriding / IntEnum) of the nine built-in bases x per-base value alphabets x nine placements x every width 1..L+3; output evaluated and compared with class-aware typed equality',
